@@ -891,7 +891,7 @@ func runCase(rt *rapid.T, h *run.H, p sim.Params, profile string, tp *tempo, nb 
 		for _, hz := range tp.hazards(w.C, gap) {
 			m.feats["hazard:"+hz]++
 		}
-		txs := drawTxs(u, h, g, w, m, busyPct)
+		txs := dlgrw.FilterTxs(h.Excluded, w, drawTxs(u, h, g, w, m, busyPct))
 		spec := dlgrw.DrawEnv(u, []int64{1}, 3, txs)
 		spec.GapSecs = gap
 		return hist.BlockStep(spec, txs), true
